@@ -1,8 +1,8 @@
 (* Executable model of the raw DNS decoder of src/resolver.c (definitions only, no proofs):
      message_name_append_safe, message_name_get, message_name_len, resolver_raw_srv_lookup_buf,
      resolver_srv_lookup_buf (non-c-ares build), resolver_srv_list_sort.
-   Constants, field offsets, the BUF_OVERFLOW_CHECK offsets and the guard comparisons come from
-   Gen_resolver (regenerated from the C source on every run).
+   Constants, field offsets, the BUF_OVERFLOW_CHECK offsets and every guard comparison of
+   message_name_get / message_name_append_safe / the sort come from Gen_resolver (regenerated from the C source on every run).
 
    Conventions (DESIGN 2.2):
    * every access to the message goes through `rd` (None = outside the buffer), every access to
@@ -60,14 +60,14 @@ Fixpoint copy_bytes (n : nat) (buf : list Z) (src : Z) (tgt : list Z) (dst : Z) 
 
 (* message_name_append_safe(name, name_len, name_max, tail, tail_len): how many bytes are copied *)
 Definition append_copy_len (name_len name_max tail_len : Z) : Z :=
-  let copy_len := if name_max >? name_len then name_max - name_len else 0 in
+  let copy_len := room_left name_max name_len in
   Z.min tail_len copy_len.
 
 (* ... with tail = (char * )&buf[src]; result: new target cells and the returned length *)
 Definition append_label (buf : list Z) (src : Z) (tgt : list Z) (base name_len name_max tail_len : Z)
   : option (list Z * Z) :=
   let copy_len := append_copy_len name_len name_max tail_len in
-  if copy_len >? 0 then
+  if copy_guard copy_len then
     match copy_bytes (Z.to_nat copy_len) buf src tgt (base + name_len) with
     | None => None
     | Some tgt' => Some (tgt', name_len + tail_len)
@@ -77,7 +77,7 @@ Definition append_label (buf : list Z) (src : Z) (tgt : list Z) (base name_len n
 (* ... with tail = "." *)
 Definition append_dot (tgt : list Z) (base name_len name_max : Z) : option (list Z * Z) :=
   let copy_len := append_copy_len name_len name_max 1 in
-  if copy_len >? 0 then
+  if copy_guard copy_len then
     match wr tgt (base + name_len) 46 with
     | None => None
     | Some tgt' => Some (tgt', name_len + 1)
@@ -95,7 +95,7 @@ Definition name_finish (buf_offset i : Z) (tgt : list Z) (name : option Z) (name
   let name_len := if name_len =? 0 then 1 else name_len in
   match name with
   | Some base =>
-      if name_max >? 0 then
+      if term_guard name_max then
         match wr tgt (base + Z.min name_len name_max - 1) 0 with
         | None => NOOB
         | Some tgt' => NRet (u32 (i - buf_offset)) tgt'
@@ -111,7 +111,7 @@ Fixpoint name_loop (rec : Z -> list Z -> option Z -> Z -> nres)
   match f with
   | O => NFuel
   | S f' =>
-      if i >=? buf_len then NRet 0 tgt else
+      if idx_guard i buf_len then NRet 0 tgt else
       match rd buf i with
       | None => NOOB
       | Some label_len =>
@@ -119,7 +119,7 @@ Fixpoint name_loop (rec : Z -> list Z -> option Z -> Z -> nres)
           if label_len =? 0 then name_finish buf_offset i tgt name name_len name_max
           else if Z.land label_len label_mask =? label_tag then
             (* Label *)
-            if u32 (i + label_len - 1) >=? buf_len then NRet 0 tgt else
+            if label_end_guard (u32 (i + label_len - label_end_adjust)) buf_len then NRet 0 tgt else
             match name with
             | Some base =>
                 match append_label buf i tgt base name_len name_max label_len with
@@ -136,7 +136,7 @@ Fixpoint name_loop (rec : Z -> list Z -> option Z -> Z -> nres)
             end
           else if Z.land label_len label_mask =? pointer_tag then
             (* Pointer *)
-            if i >=? buf_len then NRet 0 tgt else
+            if idx_guard i buf_len then NRet 0 tgt else
             match rd buf i with
             | None => NOOB
             | Some lo =>
@@ -148,7 +148,7 @@ Fixpoint name_loop (rec : Z -> list Z -> option Z -> Z -> nres)
                 let filled :=
                   match name with
                   | Some base =>
-                      if (name_len >=? name_max) && (name_max >? 0) then
+                      if name_full name_len name_max then
                         match wr tgt (base + name_max - 1) 0 with
                         | None => None
                         | Some tgt' => Some (tgt', None, 0)
@@ -160,7 +160,7 @@ Fixpoint name_loop (rec : Z -> list Z -> option Z -> Z -> nres)
                 | None => NOOB
                 | Some (tgtA, name, name_max) =>
                     let sub_name := match name with Some base => Some (base + name_len) | None => None end in
-                    let sub_max := if name_max >? name_len then name_max - name_len else 0 in
+                    let sub_max := room_left name_max name_len in
                     match rec pointer tgtA sub_name sub_max with
                     | NRet rc tgtB =>
                         if rc =? 0 then NRet 0 tgtB else
@@ -169,7 +169,7 @@ Fixpoint name_loop (rec : Z -> list Z -> option Z -> Z -> nres)
                         let fixed :=
                           match name with
                           | Some base =>
-                              if name_len >? 0 then
+                              if fixup_guard name_len then
                                 match rd tgtB (base + name_len) with
                                 | None => None
                                 | Some c =>
